@@ -59,6 +59,35 @@ def _cases(res):
     return out, bad
 
 
+def _stratified(items, key, n, rnd):
+    """At most n items, taken round-robin over the strata given by `key` (every stratum is
+    represented before any stratum gets a second item), seeded."""
+    if len(items) <= n:
+        return list(items)
+    strata = {}
+    for x in items:
+        strata.setdefault(key(x), []).append(x)
+    for v in strata.values():
+        rnd.shuffle(v)
+    out, keys = [], sorted(strata)
+    while len(out) < n:
+        for k in keys:
+            if strata[k] and len(out) < n:
+                out.append(strata[k].pop())
+    return out
+
+
+def _session_key(x):
+    """stratum of a one-attempt client session: why it ends, the deviation flags, warm or cold
+    cache, whether the first answer stays in the start certificate's epoch, number of answers"""
+    a = x["attempts"][-1]
+    certs = x["certs"]
+    first = [i for i in a["serve"][:1] if i]
+    same_epoch = bool(first) and certs[first[0] - 1]["epoch"] == certs[a["start"] - 1]["epoch"]
+    first_forged = bool(first) and not certs[first[0] - 1]["hashOk"]
+    return json.dumps([x["cls"], bool(x["warm"]), same_epoch, first_forged, len(a["serve"])])
+
+
 def _witness(c, module, cfg_name, known, finding, inv, **kw):
     """While a finding is listed as known the model must reach it (else the entry is stale)."""
     if finding not in known:
@@ -129,7 +158,8 @@ def run(tier, seed):
     acc = [x for x in cases if x["impl"]]
     rest = [x for x in cases if not x["impl"]]
     n_rest = 4000 if quick else 60000
-    sel = acc + (rest if len(rest) <= n_rest else rnd.sample(rest, n_rest))
+    sel = acc + _stratified(rest, lambda x: json.dumps([x["cls"], x["valid"], len(x["serve"]),
+                                                        x["certs"][0]["id"][:2], x["certs"][0]["hashOk"]]), n_rest, rnd)
     st = c.cov["stages"]["MC:chain"]
     st.update({"cases_total": len(cases), "cases_selected": len(sel), "cases_predicted_accept": len(acc),
                "cases_predicted_accept_not_valid": len([x for x in acc if not x["valid"]]),
@@ -161,8 +191,8 @@ def run(tier, seed):
     n1 = 1000 if quick else 20000
     acc1 = [x for x in s1 if x["cls"][0] == "accept"]
     rej1 = [x for x in s1 if x["cls"][0] != "accept"]
-    acc1 = acc1 if len(acc1) <= n1 else rnd.sample(acc1, n1)
-    rej1 = rej1 if len(rej1) <= n1 else rnd.sample(rej1, n1)
+    acc1 = _stratified(acc1, _session_key, n1, rnd)
+    rej1 = _stratified(rej1, _session_key, n1, rnd)
     # every rejected single attempt is also retried once (a persistent cache must not turn a retry
     # into an acceptance); no prediction for the retry
     retry = []
@@ -177,7 +207,7 @@ def run(tier, seed):
         y["cls"] = y["cls"] + ["retry"]
         retry.append(y)
     n2 = 1000 if quick else 20000
-    s2sel = s2 if len(s2) <= n2 else rnd.sample(s2, n2)
+    s2sel = _stratified(s2, _session_key, n2, rnd)
     sessions = acc1 + retry + s2sel
     c.cov["stages"]["MC:client-1-attempt"].update({"cases_total": len(s1), "damaged_case_lines": b1})
     c.cov["stages"]["MC:client-gen-2-attempts"].update({"cases_total": len(s2), "damaged_case_lines": b2})
